@@ -191,6 +191,49 @@ func Run(c *core.Ctx) int {
 		leanReqs = append(leanReqs, rc.leanReq)
 		leanCases = append(leanCases, leanCase{rc.doc, "the document recalculated after " + rc.edit})
 	}
+	// every OTHER public operation that hands the caller a calculated document (ConvertInto of invoices,
+	// orders and deliveries, Invert, RemoveIncludedTaxes, Correct): the document handed back, and the
+	// receiver a conversion is documented to leave alone, are documents "calculated with the currency
+	// rule" like any other — same identities, same Lean oracle
+	var replayDoc *calcproto.Doc
+	if len(docs) == 1 && rc.Doc != nil {
+		replayDoc = rc.Doc
+	}
+	forceRule := func(d *calcproto.Doc) {
+		if effectiveRule(d) != "currency" {
+			if d.Country == "EL" {
+				d.Rule = ""
+			} else {
+				d.Rule = "currency"
+			}
+		}
+	}
+	opsFailed := map[*calcproto.Doc]bool{}
+	opsLean := map[int]c01.Presented{}
+	for _, p := range c01.OpsFamily(c, false, c.Pick(1500, 30000), calcproto.GenOpts{CurrencyOnly: true}, forceRule, replayDoc) {
+		if effectiveRule(p.Doc) != "currency" {
+			continue // a replayed description of another rule
+		}
+		if calcproto.OutsideExactDomain(p.Inv) || calcproto.OutsidePaymentDomain(p.Inv) {
+			c.Count("ops:presented-skipped-outside-2^52-domain", 1)
+			continue
+		}
+		c.Count("ops:presented-documents-judged", 1)
+		errs := calcproto.ReaddIdentities(p.Inv, p.Sub)
+		if t := p.Inv.Totals; t != nil && t.Rounding != nil && t.Rounding.Exp() > p.Sub {
+			errs = append(errs, fmt.Sprintf("totals.rounding %s carries more decimals than the currency (%d)", t.Rounding.String(), p.Sub))
+		}
+		if len(errs) > 0 {
+			if !opsFailed[p.Doc] {
+				opsFailed[p.Doc] = true
+				c.Fail(opsClassifier(p, errs), "presented figures of "+p.What+" do not re-add under the currency rule: "+strings.Join(errs, "; "), c01.Case{Doc: p.Doc})
+			}
+			continue
+		}
+		leanReqs = append(leanReqs, "readd "+fmt.Sprint(p.Sub)+" "+calcproto.EncodeOut(p.Inv))
+		leanCases = append(leanCases, leanCase{p.Doc, p.What})
+		opsLean[len(leanCases)-1] = p
+	}
 	verdicts, err := c.ModelProp("C03", leanReqs)
 	if err != nil {
 		c.TieBroken("drive:C03/oracle", err.Error(), nil)
@@ -211,13 +254,76 @@ func Run(c *core.Ctx) int {
 			}
 			if !failed[lc.doc] {
 				failed[lc.doc] = true
-				c.Fail("", "Spec.C03.readdOk is false on "+lc.what+" as the real code presents it; failing clauses:"+v[1:], c01.Case{Doc: lc.doc})
+				cls := ""
+				if p, ok := opsLean[k]; ok {
+					// the Lean oracle also reads the breakdown rows; its clause names are "line<i>" …
+					var es []string
+					for _, f := range strings.Fields(v[1:]) {
+						if strings.HasPrefix(f, "line") {
+							es = append(es, "line "+strings.TrimPrefix(f, "line")+": sum - discounts + charges")
+						} else {
+							es = append(es, f)
+						}
+					}
+					cls = opsClassifier(p, es)
+				}
+				c.Fail(cls, "Spec.C03.readdOk is false on "+lc.what+" as the real code presents it; failing clauses:"+v[1:], c01.Case{Doc: lc.doc})
 			}
 		default:
 			c.TieBroken("drive:C03/oracle", "the Lean driver did not understand the encoded output: "+v, c01.Case{Doc: lc.doc})
 		}
 	}
 	return c.Finish("random documents under the currency rule (explicit, or Greek regime default), fixed discount/charge/advance amounts at the currency's precision, prices with up to 6 decimals, tax-included prices, currencies with 0/2/3 decimals; the identities are recomputed from the presented figures only, in Go with math/big and by the Lean oracle Spec.C03.readdOk on the encoded output (first calculation and every recalculation after an edit); non-trivial = at least one line", nil)
+}
+
+// opsClassifier names the known finding a failure of the operations family
+// belongs to, by a predicate over the INPUT and the clause that failed: a
+// conversion multiplies every fixed line discount/charge amount (and advance) by
+// the exchange rate at two extra decimals, carries bases, charge rates and
+// breakdown rows over as they are, and nothing rounds any of them to the target
+// currency, which the line total was built at (the C03 face of
+// fixed-amount-finer-than-presented).  Only a failure made of nothing but the
+// line identity of lines that carry such a row (or the advances sum of a
+// document with a fixed advance), on the document a ConvertInto handed back, is
+// that finding.
+func opsClassifier(p c01.Presented, errs []string) string {
+	if strings.HasPrefix(p.Op.Op, "invoice.RemoveIncludedTaxes") && strings.HasPrefix(p.What, "the document handed back") && removalLeftFixedAmountFiner(p.Inv, p.Sub) {
+		return "c03.removalLeavesFixedAmountFiner" // the same judgement as the after-removal family above
+	}
+	if p.Op.Convert && strings.HasPrefix(p.What, "the receiver after") {
+		// by the clause that fails: the identities read two of the parts a conversion is known to share
+		// with its receiver — the due dates of the payment terms and the rows of a breakdown
+		cls := ""
+		for _, e := range errs {
+			var i int
+			switch {
+			case e == "due-dates" && p.Doc.HasPayment && len(p.Doc.Dues) > 0:
+				cls = "c03.convertIntoSharesPaymentTerms"
+			case strings.HasPrefix(e, "line "):
+				if n, _ := fmt.Sscanf(e, "line %d:", &i); n != 1 || i >= len(p.Doc.Lines) || len(p.Doc.Lines[i].Breakdown) == 0 {
+					return ""
+				}
+				cls = "c03.convertIntoSharesBreakdownRows"
+			default:
+				return ""
+			}
+		}
+		return cls
+	}
+	if !p.Op.Convert || p.FixedLineRows == nil {
+		return ""
+	}
+	for _, e := range errs {
+		// converted advances keep the decimals of the source currency
+		if (strings.HasPrefix(e, "sum of advances") || e == "advances" || e == "advance-rows") && c01.HasFixedAdvance(p.Doc) {
+			continue
+		}
+		var i int
+		if n, _ := fmt.Sscanf(e, "line %d: sum - discounts + charges", &i); n != 1 || !p.FixedLineRows[i] {
+			return ""
+		}
+	}
+	return "c03.convertedFixedLineAmountFiner"
 }
 
 // removalLeftFixedAmountFiner: RemoveIncludedTaxes divides every fixed line or
